@@ -84,6 +84,66 @@ def feature_tree(default_features):
         proj.cleanup()
 
 
+def items_tie(ck):
+    """Which runtime items the expansion names: the table the C16 theorems are about (`templateItems`, RuntimeItems.lean) against the
+    tokens of the model (`Render.lean`) and against the tokens of the REAL generator, input by input."""
+    import random
+    import corpus
+    import t2
+    from vlib import hexs, unhexs
+    rng = random.Random("c16-items/%d" % ck.seed)
+    texts = [t for _, t in corpus.repo_invocations()] + t2.EDGE + t2.gen_texts(rng, 150 if ck.tier == "quick" else 1500)
+    outs = ck.rt_batch(["run " + hexs(t) for t in texts], binary="inproc", harness="inproc")
+    if outs and outs[0] == "unavailable":
+        return
+    reqs, idx = [], []
+    for k, o in enumerate(outs):
+        f = o.split("\t")
+        if f[0] == "ok":
+            reqs.append("items\t%s\t%s" % (f[1], f[2]))
+            idx.append(k)
+    res = ck.lean_batch(reqs) if reqs else []
+
+    def scan(toks):
+        w = []
+        for t in toks[6:-1].split(" "):
+            h = t.split("@")[0]
+            w.append('""' if h.startswith("s:") else unhexs(h))
+        found = []
+        i = 0
+        while i < len(w):
+            if w[i:i + 5] == [":", ":", "assert_struct", ":", ":"]:
+                if w[i + 5:i + 8] == ["__macro_support", ":", ":"] and i + 8 < len(w):
+                    found.append("__macro_support::" + w[i + 8])
+                    i += 9
+                    continue
+                if i + 5 < len(w):
+                    found.append(w[i + 5])
+                    i += 6
+                    continue
+            i += 1
+        return sorted(set(x for x in found if x != "__macro_support::ComparisonOp"))
+
+    dist, bad = {}, []
+    for k, r in zip(idx, res):
+        g = r.split("\t")
+        if g[0] not in ("same", "diff"):
+            dist["model:" + g[0]] = dist.get("model:" + g[0], 0) + 1
+            continue
+        declared = sorted(set(x for x in g[1].split(",") if x))
+        real = scan(outs[k].split("\t")[6])
+        kk = "+".join(x.split("::")[-1] for x in declared if x not in ("__macro_support::PatternNode", "__macro_support::NodeKind", "__macro_support::ErrorReport")) or "base only"
+        dist[kk] = dist.get(kk, 0) + 1
+        if g[0] != "same" or declared != real:
+            bad.append(dict(invocation=texts[k][:300], table=declared, model_tokens=g[2], real_tokens=real, templates=g[3] if len(g) > 3 else ""))
+    ck.corr_record("runtime items named by the expansion: the table of the C16 theorems (templateItems) vs the tokens of the model and of the real generator",
+                   len(idx), len(set(texts[k] for k in idx)), len(bad), dist, samples=bad[:3] or [dict(invocation=texts[idx[0]][:120])] if idx else [],
+                   rule="repository corpus + edge patterns + seeded generated patterns, every accepted one")
+    if bad and not [v for v in ck.violations if not v["no_input"]]:
+        ck.report("corr:runtime-items", "the expansion names other items of the runtime crate than the table the C16 theorems are about (%d inputs differ)" % len(bad),
+                  dict(broken="correspondence: templateItems (RuntimeItems.lean) vs the generator's tokens", theorems=["C16_unaffected", "C16_literal_rejected", "C16_user_like_survives"], first=bad[:3]), no_input=True)
+
+
 def run(ck):
     rc, out, err = sh(["python3", os.path.join(ROOT, "tools", "gen_wiring.py")])
     if rc != 0:
@@ -165,6 +225,7 @@ def run(ck):
     ck.corr_record("T3 Like forms per configuration (user Like impl, regex literal, String pattern through the built-in impls, plain string) accepted / rejected by rustc",
                    2 * len(PROGS), 2 * len(PROGS), 0, adist, samples=[dict(program=PROGS["regex-literal"][1])], exhaustive=True, rule="%d programs x 2 configurations" % len(PROGS))
     import parsetie
+    items_tie(ck)
     parsetie.light_tie(ck, "C16: the compiled programs' expectations read patterns with the model parser")
     ck.assumptions += ["cargo's additive feature unification is modelled by `resolve` for this two-crate graph and compared with `cargo tree -e features` on every run"]
     ck.trusted.append("the manifest translator tools/gen_wiring.py (its output is compared with cargo's own resolution on every run)")
